@@ -26,12 +26,20 @@ all 3^d orders of outcomes; replayed on both interfaces through every public ent
 Chains (harness/cuqiverif/mhchain_real.py): the behaviours that consist of transitions only are also executed through the
 public loops sample() / warmup() (stateful) and sample() (stateless), which call step() / single_update() and thread the
 state and the cached evaluations.
+Re-configured samplers, proposal objects, data layouts (specs/MHReconf.tla EXTENDS MHKernel; harness/cuqiverif/mhreconf_real.py):
+a CONSTRUCTED sampler whose public attributes (initial_point / initial_scale / target; x0 / scale / target) are assigned and that
+is then re-initialised (reinitialize(); a new sample() call of the stateless interface): point = the configured initial point,
+every cached evaluation = the evaluation at that point under the current target, scale = the configured one, first transition
+decided with the Metropolis-Hastings ratio from there; the proposal OBJECT of the random-walk kernel (is_symmetric True / False /
+None / missing x centre of the increment law): refused, or decided with the ratio of the mechanism it really is; the data LAYOUT
+of points and scales (lists, integer arrays, float32, 0-d, (n,1), in-place edit of the array handed over) with the lattice
+embedded as real = lattice / 2 so that accepted states are not integral.
 Code -> spec: real runs of the Metropolis-type samplers under the recorder log the boolean facets cache_ok /
 finite_ok / moved / acc of every transition; TLC validates them against TraceMHKernel.tla.
 """
 META = {
     "claimed": True,
-    "engine": "MHKernel.tla + CWSweep.tla",
+    "engine": "MHKernel.tla + CWSweep.tla + MHReconf.tla",
     "text": ("TLC checks on every reachable state of the bounded lattice model (d=1: 5 points, d=2: 3x3; quadratic, asymmetric "
              "and NaN/-inf-holed target tables; RW, CW, PCN, MALA x both interfaces; scalar, per-component and re-tuned scales; "
              "state reload) that the log-ratio computed from the caches is the Metropolis-Hastings log-ratio of the proposal "
@@ -54,8 +62,21 @@ META = {
              "emitted sweep is replayed on both interfaces through step / sample / warmup and single_update / sample / "
              "sample_adapt: the evaluation record must contain the spec's points in order, then flags, point and cache; "
              "behaviours made of transitions only are additionally run through the public chain loops (sample / warmup; legacy "
-             "sample) and compared state by state; recorded real "
-             "runs are validated by TLC against TraceMHKernel."),
+             "sample) and compared state by state; MHReconf.tla (EXTENDS MHKernel) adds the public attributes as configured "
+             "(pub = initial point / scale / target), the actions ReX0 / ReSc / ReTgt (assignment to a constructed sampler) and Reinit "
+             "(reinitialize() / a new sample() call), the proposal object of the random-walk kernel (kind x is_symmetric flag true / "
+             "false / none / missing x centre mu of the increment law; modes sym / refused / hastings) and the data layout of points "
+             "and scales; TLC checks RatioIsMH, DetailedBalance, CacheCoherent, ReinitIsFresh, NoNonFiniteAccept over the "
+             "re-configured behaviours (0..1 transition before, 1..3 assignments, Reinit, first transition; all kernels x both "
+             "interfaces) and RatioIsMHP / DetailedBalanceP (ratio of the mechanism really used) over every proposal object; "
+             "deviations ReinitKeepsCacheForSameTarget, ReinitKeepsCurrentCache (-> CacheCoherent), UnknownSymmetryAccepted, "
+             "FlagTrustedWhateverTheCentre (-> RatioIsMHP) are refuted; the emitted behaviours are replayed on the real samplers "
+             "(stateful: attributes + reinitialize() + step() / sample(); stateless: attributes + sample() on one object, and "
+             "single_update with the state threaded): point, cached evaluations against a fresh un-instrumented evaluation, scale, "
+             "then proposal / decision / state of the first transition; proposal objects given to the constructor or assigned: "
+             "refused, or replayed with a uniform 1e-6 below / above the threshold of the mode the specification emitted; layouts "
+             "(python lists, integer arrays, float32, 0-d, (n,1), in-place edit) with the lattice embedded as real = lattice/2; "
+             "recorded real runs are validated by TLC against TraceMHKernel."),
     "note": ("Targets are tables on a finite lattice (the ratio identities do not depend on the table values); a computed ratio "
              "must deviate by more than 1e-6 relative to flip a scripted decision. Legacy CWMH is driven with a copy of x "
              "(its in-place write is finding C14-F1). CWMH of either interface cannot run in dimension 1 (observation). "
@@ -68,8 +89,12 @@ META = {
              "(exit 2). The experimental ULA / MALA and PCN / MH have no generator argument. Sweeps: evaluations besides the "
              "component proposals and whether a uniform is drawn for a refused proposal are observations; the uniform served is "
              "chosen by the evaluation made last (evaluate-then-draw is assumed, otherwise exit 2). The columns of a legacy CWMH "
-             "chain other than the last are not compared (in-place overwrite = C14-F1)."),
-    "technique": "TLA+ specs (MHKernel, CWSweep) model-checked with TLC; TLC-generated behaviours replayed into the samplers with scripted randomness; recorded traces validated by TLC",
+             "chain other than the last are not compared (in-place overwrite = C14-F1). Re-configuration: no transition is modelled "
+             "between an assignment and the re-initialisation (undocumented); the symmetry of the conditional proposals of CWMH is "
+             "not checked by either interface and not asserted; a flag declared by the caller of a user-defined proposal is taken as "
+             "truthful; exceptions under a non-default layout and mismatches under a layout no docstring describes are "
+             "observations; what a sampler does with a proposal object whose assignment raised is an observation."),
+    "technique": "TLA+ specs (MHKernel, CWSweep, MHReconf) model-checked with TLC; TLC-generated behaviours replayed into the samplers with scripted randomness; recorded traces validated by TLC",
 }
 
 import concurrent.futures, hashlib, json, os, random, time, warnings
@@ -93,6 +118,13 @@ SWEEP_DEVIATIONS = (  # CWSweep.tla: cfg, invariant that must be violated
     ("CWSweep.CacheLastEvaluated.deviation.cfg", "CacheCoherent"),
 )
 
+
+RECONF_DEVIATIONS = (  # MHReconf.tla: cfg, invariant that must be violated
+    ("MHReconf.ReinitKeepsCacheForSameTarget.deviation.cfg", "CacheCoherent"),
+    ("MHReconf.ReinitKeepsCurrentCache.deviation.cfg", "CacheCoherent"),
+    ("MHReconf.UnknownSymmetryAccepted.deviation.cfg", "RatioIsMHP"),
+    ("MHReconf.FlagTrustedWhateverTheCentre.deviation.cfg", "RatioIsMHP"),
+)
 
 _SERIAL = [0]
 
@@ -821,6 +853,236 @@ def chain_facet(ctx, roots, behs):
                            "longest_chain_per_kernel_interface_entry": done, "wall_s": round(time.time() - t0, 1)})
 
 
+# ----------------------------------------------------------------------------------------------------------------
+# spec -> code : re-configuration + re-initialisation, proposal objects, data layouts (MHReconf.tla)
+# ----------------------------------------------------------------------------------------------------------------
+def _rkey(c):
+    return json.dumps([c["cfg"], c["lay"], c["prop"], c.get("how", "ctor")], sort_keys=True)
+
+
+def _rshape(b):
+    """(attributes assigned, outcome of the transition before the re-configuration, decision classes after it)"""
+    from cuqiverif.mhkernel_real import split_transitions
+    items = split_transitions(b["prog"])
+    ri = next((i for i, (k, _) in enumerate(items) if k == "r"), len(items))
+    pre = [e for k, e in items[:ri] if k == "T"]
+    post = [e for k, e in items[ri + 1:] if k == "T"] if ri < len(items) else pre
+    attrs = tuple(e["attr"] for k, e in items if k == "c")
+    preo = "none" if not pre or ri == len(items) else ("acc" if any(d["acc"] for _, d in pre[-1]) else "rej")
+    return attrs, preo, tuple(tuple(d["cls"] for _, d in t) for t in post), any(k == "t" for k, _ in items)
+
+
+def select_reconf(behs, rnd, limit, with_start=False, roots=None):
+    """every stratum (configuration x layout x attributes assigned x outcome before x decision classes after) at least once,
+    then a seeded sample up to `limit`"""
+    if limit is None or len(behs) <= limit:
+        return list(behs)
+    order = list(range(len(behs)))
+    rnd.shuffle(order)
+    seen, pick, rest = set(), [], []
+    for i in order:
+        c = behs[i]["cfg"]
+        q = (c["k"], c["iface"], c["d"], c["m"], behs[i]["lay"]) + _rshape(behs[i])
+        if with_start:
+            q += (c["tgt"], c["sc"])
+        if roots is not None:
+            from cuqiverif.mhreconf_real import int_visible
+            q += (int_visible(behs[i], roots[_rkey(behs[i])]),)
+        if q not in seen:
+            seen.add(q)
+            pick.append(i)
+        else:
+            rest.append(i)
+    if len(pick) < limit:
+        pick += rest[:limit - len(pick)]
+    return [behs[i] for i in sorted(pick)]
+
+
+REQUIRED_ATTRS = ("x0", "sc", "tgt", "x0+sc", "x0+tgt", "sc+tgt", "none")
+REQUIRED_LAYOUTS = {"x": ("f64", "int", "f32", "inplace", "list"), "s": ("float", "int", "f32")}
+
+
+def reconf_facets(ctx, res):
+    """replay of the behaviours of MHReconf.<tier>.cfg (re-configured and re-initialised samplers), MHReconf.layout.<tier>.cfg
+    (data layouts) and MHReconf.propsym.<tier>.cfg (proposal objects of the random-walk kernel)"""
+    from cuqiverif import mhreconf_real as M, mhkernel_real as R
+    from cuqiverif.core import MachineryError
+    tier = ctx.tier
+    ctx.model_must_hold(res["reconf"], "MHReconf")
+    ctx.model_must_hold(res["relayout"], "MHReconf(layouts)")
+    ctx.model_must_hold(res["propsym"], "MHReconf(proposal objects)")
+    for cfg, inv in RECONF_DEVIATIONS:
+        r = res[cfg]
+        if r.ok or r.violated != inv:
+            raise MachineryError("deviation %s did not violate %s (got %r): invariant is vacuous" % (cfg, inv, r.violated))
+    out = {}
+    # ---- (1) re-configuration + re-initialisation ---------------------------------------------------------------------
+    t0 = time.time()
+    roots = {}
+    for c in res["reconf"].cases:
+        if c["kind"] == "rroot":
+            roots.setdefault(_rkey(c), c)
+    behs = [c for c in res["reconf"].cases if c["kind"] == "rbeh"]
+    if not behs or not roots:
+        raise MachineryError("no behaviours emitted by MHReconf")
+    limit = 3200 if tier == "quick" else 20000
+    chosen = select_reconf(behs, random.Random(ctx.seed + 911), limit, with_start=tier != "quick")
+    stats = M.new_stats()
+    nloop = 0
+    for n, b in enumerate(chosen):
+        c = b["cfg"]
+        root = roots[_rkey(b)]
+        # stateful interface: step() on every behaviour, the public loops on a quarter; stateless interface: the re-initialisation
+        # IS a new sample() call on the sampler object - every behaviour through it, single_update (state threaded by the
+        # harness) on half of them
+        tuned = _rshape(b)[3]
+        if c["iface"] == "exp" or tuned:
+            vias = ["step"] + (["sample"] if (n + ctx.seed) % 4 == 0 and not tuned else [])
+        else:
+            vias = ["sample"] + (["step"] if (n + ctx.seed) % 2 == 0 else [])
+        for via in vias:
+            ctx.case(("reconf", via, c["k"], c["iface"], c["d"], c["tgt"], c["sc"], c["m"],
+                      hashlib.sha1(_cfgkey(b["prog"]).encode()).hexdigest()[:12]), facet="reconf")
+            M.run_rbeh(ctx, b, root, "reconf", salt=n, stats=stats, via=via)
+            ctx.traces += 1
+            nloop += via == "sample"
+    for kern in ("RW", "CW", "PCN", "MALA"):
+        for iface in ("exp", "leg"):
+            for a in REQUIRED_ATTRS:
+                for pre in (0, 1):
+                    if a == "none" and pre == 0:
+                        continue
+                    if not stats["attrs"].get("%s/%s/%s/pre=%d" % (kern, iface, a, pre)) and not ctx.violations:
+                        raise MachineryError("re-configuration facet vacuous: no re-initialisation of %s/%s after assigning %s with %d "
+                                             "transition(s) before (%r)" % (kern, iface, a, pre, sorted(stats["attrs"])))
+            if not stats["via"].get("%s/%s" % (kern, iface)) and not ctx.violations:
+                raise MachineryError("re-configuration facet vacuous: the public loops of %s/%s were not driven" % (kern, iface))
+    # binding self-test: a cache made stale right after the re-initialisation must be reported
+    tested = 0
+    for kern in ("RW", "CW", "PCN", "MALA"):
+        for iface in ("exp", "leg"):
+            b = next((q for q in chosen if q["cfg"]["k"] == kern and q["cfg"]["iface"] == iface), None)
+            if b is None:
+                raise MachineryError("binding self-test of the re-configuration facet impossible for %s/%s" % (kern, iface))
+            col = _Collector()
+            M.run_rbeh(col, b, roots[_rkey(b)], "reconf", salt=0, tamper=lambda drv: drv.corrupt_cache())
+            if not any(h.endswith("/reinit/cache_coherent") for h in col.hits):
+                raise MachineryError("binding self-test: a stale cache after the re-initialisation was not reported (%s/%s: %r)" % (kern, iface, col.hits))
+            tested += 1
+    out["reconfiguration"] = {"behaviours_emitted": len(behs), "behaviours_replayed": len(chosen), "of_these_also_through_the_public_loops": nloop,
+                              "real_transitions": stats["transitions"], "reinitialisations_per_kernel_interface": stats["reinit"],
+                              "attributes_assigned_x_transitions_before": stats["attrs"], "binding_selftests": tested,
+                              "wall_s": round(time.time() - t0, 1)}
+    rb = next((b for b in chosen if b["cfg"]["k"] == "RW" and _rshape(b)[0] == ("x0",) and _rshape(b)[1] == "acc"), chosen[0])
+    ctx.sample({"reconfigured_behaviour": {"cfg": rb["cfg"], "prog": rb["prog"]}})
+    # ---- (2) data layouts -------------------------------------------------------------------------------------------------
+    t0 = time.time()
+    lroots = {}
+    for c in res["relayout"].cases:
+        if c["kind"] == "rroot":
+            lroots.setdefault(_rkey(c), c)
+    lbehs = [c for c in res["relayout"].cases if c["kind"] == "rbeh"]
+    lays = {c["lay"] for c in lbehs}
+    if not {"base", "ints", "lists", "f32", "inplace"} <= lays:
+        raise MachineryError("layout facet vacuous: the specification enumerated the layouts %r only" % sorted(lays))
+    llimit = 2400 if tier == "quick" else 12000
+    lchosen = select_reconf(lbehs, random.Random(ctx.seed + 912), llimit, roots=lroots)
+    lstats = M.new_stats()
+    for n, b in enumerate(lchosen):
+        c = b["cfg"]
+        tuned = _rshape(b)[3]
+        if c["iface"] == "exp" or tuned:
+            vias = ["step"] + (["sample"] if (n + ctx.seed) % 5 == 0 and not tuned else [])
+        else:
+            vias = ["sample"] + (["step"] if (n + ctx.seed) % 3 == 0 else [])
+        for via in vias:
+            ctx.case(("layout", via, b["lay"], c["k"], c["iface"], c["d"], c["tgt"], c["sc"], c["m"],
+                      hashlib.sha1(_cfgkey(b["prog"]).encode()).hexdigest()[:12]), facet="layout")
+            M.run_rbeh(ctx, b, lroots[_rkey(b)], "layout", salt=n, stats=lstats, via=via)
+            ctx.traces += 1
+    for kern in ("RW", "CW", "PCN", "MALA"):
+        for iface in ("exp", "leg"):
+            for ax, need in REQUIRED_LAYOUTS.items():
+                for q in need:
+                    if ax == "s" and ((kern == "PCN" and q != "float") or (kern == "CW" and q == "f32")):
+                        continue                # the lattice scales of the pCN kernel (3/5, 4/5) are neither integers nor float32 numbers
+                    if not lstats["layouts"].get("%s/%s/%s=%s" % (kern, iface, ax, q)) and not ctx.violations:
+                        raise MachineryError("layout facet vacuous: %s/%s was not driven with %s layout %s (%r)" % (kern, iface, ax, q, sorted(lstats["layouts"])))
+            if not lstats["int_nonintegral_accept"].get("%s/%s/via=%s" % (kern, iface, "step" if iface == "exp" else "sample")) and not ctx.violations:
+                raise MachineryError("layout facet vacuous: no accepted non-integral state from an integer-typed initial point for %s/%s (%r)" % (
+                    kern, iface, lstats["int_nonintegral_accept"]))
+    out["layouts"] = {"behaviours_emitted": len(lbehs), "behaviours_replayed": len(lchosen), "real_transitions": lstats["transitions"],
+                      "layouts_really_used": lstats["layouts"],
+                      "accepted_non_integral_states_from_an_integer_initial_point": lstats["int_nonintegral_accept"],
+                      "wall_s": round(time.time() - t0, 1)}
+    # neither required nor forbidden: a layout the sampler refuses, a mismatch under a layout no docstring describes
+    ctx.observe("layout_refused_by_the_sampler", lstats["layout_refused"])
+    if lstats["layout_unasserted_mismatch"]:
+        ctx.observe("mismatch_under_a_layout_outside_the_documentation", lstats["layout_unasserted_mismatch"])
+    # ---- (3) proposal objects of the random-walk kernel -----------------------------------------------------------------
+    t0 = time.time()
+    proots = {}
+    for c in res["propsym"].cases:
+        if c["kind"] == "rroot":
+            proots.setdefault(_rkey(c), dict(c))
+    pbehs = [c for c in res["propsym"].cases if c["kind"] == "rbeh"]
+    def differs(b):
+        return any(e["a"] == "p" and e["tv"][1] > 0 and e["r"] != e["rsym"] for e in b["prog"])
+    for flag in ("none", "false", "missing", "true"):
+        if not any(b["prop"]["flag"] == flag and b["prop"]["mu"] == 1 and b["mode"] == "hastings" and differs(b) for b in pbehs):
+            raise MachineryError("proposal facet vacuous: the specification emitted no behaviour of an asymmetric proposal object with flag %s whose "
+                                 "Hastings ratio differs from the symmetric one" % flag)
+    if not any(b["mode"] == "sym" for b in pbehs) or any(b["mode"] == "sym" and (b["prop"]["mu"] != 0 or b["prop"]["flag"] != "true") for b in pbehs):
+        raise MachineryError("proposal facet: mode sym must be emitted exactly for the objects known to be symmetric about zero")
+    pstats = M.new_stats()
+    admitted = {}
+    plimit = None if tier == "quick" else 12000
+    pchosen = select_reconf(pbehs, random.Random(ctx.seed + 913), plimit)
+    for n, b in enumerate(pchosen):
+        c, kk = b["cfg"], _rkey(b)
+        root = proots[kk]
+        if kk not in admitted:
+            ctx.case(("propsym_admission", c["iface"], c["d"], c["sc"], c["tgt"], b.get("how"), json.dumps(b["prop"], sort_keys=True)), facet="propsym")
+            admitted[kk] = M.admission(ctx, root, pstats)
+        if not admitted[kk]:
+            continue
+        ctx.case(("propsym", c["iface"], c["d"], c["sc"], c["tgt"], b.get("how"), json.dumps(b["prop"], sort_keys=True),
+                  hashlib.sha1(_cfgkey(b["prog"]).encode()).hexdigest()[:12]), facet="propsym")
+        M.run_rbeh(ctx, b, root, "propsym", salt=n, stats=pstats)
+        ctx.traces += 1
+    for iface in ("exp", "leg"):
+        for q in ("ctor/kind=gauss/flag=true/mu=0", "ctor/kind=user/flag=true/mu=0", "assign/kind=gauss/flag=true/mu=0", "assign/kind=user/flag=true/mu=0"):
+            if not pstats["admitted"].get("%s/%s" % (iface, q)) and not ctx.violations:
+                raise MachineryError("proposal facet vacuous: %s/%s was not admitted and driven (%r)" % (iface, q, pstats["admitted"]))
+    # binding self-test: an asymmetric object that IS admitted (its flag claims symmetry) and decided with the symmetric ratio
+    # must be reported
+    tested = 0
+    for iface in ("exp", "leg"):
+        for d in sorted({b["cfg"]["d"] for b in pbehs}):
+            b = next((q for q in pbehs if q["cfg"]["iface"] == iface and q["cfg"]["d"] == d and q["prop"]["flag"] == "none" and
+                      q["prop"]["mu"] == 1 and q["mode"] == "hastings" and differs(q)), None)
+            if b is None:
+                raise MachineryError("binding self-test of the proposal facet impossible (%s, d=%d)" % (iface, d))
+            col = _Collector()
+            M.run_rbeh(col, b, proots[_rkey(b)], "propsym", salt=0, force_flag=True)
+            if not any("/decision/" in h for h in col.hits):
+                raise MachineryError("binding self-test: an admitted asymmetric proposal object decided with the symmetric ratio was not "
+                                     "reported (%s, d=%d: %r)" % (iface, d, col.hits))
+            tested += 1
+    out["proposal_objects"] = {"behaviours_emitted": len(pbehs), "objects_x_configurations": len(admitted),
+                               "refused_by_the_sampler": pstats["refused"], "admitted_by_the_sampler": pstats["admitted"],
+                               "real_transitions": pstats["transitions"],
+                               "transitions_whose_hastings_ratio_differs_from_the_symmetric_one": pstats["hastings_differs"],
+                               "binding_selftests": tested, "wall_s": round(time.time() - t0, 1)}
+    if pstats["refused_assignment_keeps_object"]:
+        ctx.observe("refused_proposal_assignment_leaves_the_object_installed", pstats["refused_assignment_keeps_object"])
+    pb = next((b for b in pbehs if b["prop"]["flag"] == "none" and b["prop"]["mu"] == 1 and differs(b)), pbehs[0])
+    ctx.sample({"proposal_object_behaviour": {"cfg": pb["cfg"], "prop": pb["prop"], "mode": pb["mode"], "prog": pb["prog"]}})
+    ctx.observe("reconfiguration_layouts_proposal_objects", out)
+    ctx.observe("named_deviations_reconf", {cfg: inv for cfg, inv in RECONF_DEVIATIONS})
+    return {"reconf": (len(behs), len(chosen), limit), "layout": (len(lbehs), len(lchosen), llimit), "propsym": (len(pbehs), len(pchosen), plimit)}
+
+
 def probes(ctx):
     """things neither required nor forbidden by the property: recorded as observations"""
     import cuqi
@@ -859,9 +1121,15 @@ def run(ctx):
     os.makedirs(workdir, exist_ok=True)
     # 1. model checking, behaviour emission, named deviations - all TLC runs concurrently
     jobs = {}
-    with concurrent.futures.ThreadPoolExecutor(max_workers=12) as pool:
+    with concurrent.futures.ThreadPoolExecutor(max_workers=16) as pool:
         jobs["main"] = pool.submit(_tlc_retry, ctx, "MHKernel", cfg="MHKernel.%s.cfg" % tier, workers=8, timeout=3000)
         jobs["deep"] = pool.submit(_tlc_retry, ctx, "MHKernel", cfg="MHKernel.deep.%s.cfg" % tier, workers=8, timeout=3000)
+        rk = dict(extra_modules=("MHKernel.tla",), timeout=3000)
+        jobs["reconf"] = pool.submit(_tlc_retry, ctx, "MHReconf", cfg="MHReconf.%s.cfg" % tier, workers=4, **rk)
+        jobs["relayout"] = pool.submit(_tlc_retry, ctx, "MHReconf", cfg="MHReconf.layout.%s.cfg" % tier, workers=2, **rk)
+        jobs["propsym"] = pool.submit(_tlc_retry, ctx, "MHReconf", cfg="MHReconf.propsym.%s.cfg" % tier, workers=2, **rk)
+        for cfg, inv in RECONF_DEVIATIONS:
+            jobs[cfg] = pool.submit(_tlc_retry, ctx, "MHReconf", cfg=cfg, workers=1, expect_violation=True, **rk)
         jobs["m0"] = pool.submit(_tlc_retry, ctx, "MHKernel", cfg="MHKernel.rawprior_m0.cfg", workers=2, timeout=2400)
         jobs["abort"] = pool.submit(_tlc_retry, ctx, "MHKernel", cfg="MHKernel.abort.%s.cfg" % tier, workers=8, timeout=3000)
         jobs["src"] = pool.submit(_tlc_retry, ctx, "MHKernel", cfg="MHKernel.src.%s.cfg" % tier, workers=4, timeout=3000)
@@ -879,7 +1147,16 @@ def run(ctx):
             trace_facet(ctx, workdir)
         except BaseException as ex:      # re-raised below, after the TLC jobs have been collected
             trace_error = ex
+        # the facets of MHReconf (short TLC runs) are replayed while the large model-checking runs are still in progress
         res = {}
+        reconf_error, rcounts = None, None
+        try:
+            for k in ["reconf", "relayout", "propsym"] + [cfg for cfg, _ in RECONF_DEVIATIONS]:
+                res[k] = jobs[k].result()
+            if trace_error is None or isinstance(trace_error, MachineryError):
+                rcounts = reconf_facets(ctx, res)
+        except BaseException as ex:
+            reconf_error = ex
         job_error = None
         for k, f in jobs.items():
             try:
@@ -891,6 +1168,8 @@ def run(ctx):
             raise job_error
         if trace_error is not None and not isinstance(trace_error, MachineryError):
             raise trace_error
+        if reconf_error is not None:
+            raise reconf_error
         ctx.model_must_hold(res["main"], "MHKernel")
         ctx.model_must_hold(res["deep"], "MHKernel(deep)")
         ctx.model_must_hold(res["m0"], "MHKernel(raw prior draw, m=0)")
@@ -977,11 +1256,18 @@ def run(ctx):
                 "cover + seeded sample of %d); plus the sweeps of CWSweep.<tier>.cfg (component-wise kernel, dimensions 2 and 3, "
                 "coupled-support targets, every initial point of the support x proposed moves x decision classes; both interfaces, "
                 "primary entry point on every behaviour + the public loops on a third; quick: all; thorough: stratum cover + seeded "
-                "sample of %d); plus recorded traces (non-trivial = contains a judged "
-                "transition)" % (limit or len(behs), alimit or len(abehs), slimit or len(sbehs), wlimit or len(wbehs)))
+                "sample of %d); plus the behaviours of MHReconf.<tier>.cfg (assignments of initial point / scale / target to a "
+                "constructed sampler, re-initialisation, first transition; %d emitted, stratum cover (kernel x interface x attributes "
+                "assigned x outcome before x decision classes after) + seeded sample: %d replayed), MHReconf.layout.<tier>.cfg (data "
+                "layouts of points and scales; %d emitted, %d replayed) and MHReconf.propsym.<tier>.cfg (proposal objects of the "
+                "random-walk kernel: symmetry flag x centre; %d emitted, every admitted object replayed); plus recorded traces "
+                "(non-trivial = contains a judged transition)" % (
+                    limit or len(behs), alimit or len(abehs), slimit or len(sbehs), wlimit or len(wbehs),
+                    rcounts["reconf"][0], rcounts["reconf"][1], rcounts["layout"][0], rcounts["layout"][1], rcounts["propsym"][0]))
     # every behaviour of the bounded emission instances was replayed
     ctx.exhaustive = (limit is None or len(behs) <= limit) and (alimit is None or len(abehs) <= alimit) and (
-        slimit is None or nsrc <= slimit) and (wlimit is None or len(wbehs) <= wlimit)
+        slimit is None or nsrc <= slimit) and (wlimit is None or len(wbehs) <= wlimit) and all(
+        a <= b for a, b, _ in rcounts.values())
     ctx.assumptions += ["acceptance thresholds are placed 1e-6 (relative) below / above exp(r): a ratio error below 1e-6 is not detected",
                         "table targets on finite lattices; off-lattice evaluations use a smooth finite fallback",
                         "trace facets compare caches with a fresh evaluation of the sampler's own target (rtol 1e-10)",
@@ -991,6 +1277,13 @@ def run(ctx):
                         "component-wise sweeps (CWSweep): the kernel evaluates a component proposal before it draws the uniform of "
                         "its decision (the uniform served is the one of the proposal evaluated last; a uniform requested without an "
                         "evaluation before it is a machinery error); evaluations besides the component proposals are allowed",
+                        "re-configured samplers / layouts: the lattice is embedded as real = h * lattice with h = 1/2 whenever every "
+                        "initial point of the behaviour has even coordinates (h = 1 otherwise); comparisons in lattice units; an "
+                        "exception under a layout other than float64 arrays / python floats is an observation, a mismatch under a "
+                        "layout no docstring describes (0-d, (n,1), tuples, list scales, list points of the stateless interface and "
+                        "of CWMH) too",
+                        "proposal objects: the increments of the catalogue are Gaussian N(mu, I) with mu in {0, 1}; a flag declared "
+                        "by the caller of a user-defined distribution is truthful",
                         "aborted transitions: the failure is an exception raised by the target's log-density / drift / forward map "
                         "at the evaluation the spec names, once; failures of other calls (proposal, random stream) are not injected"]
 
@@ -1002,6 +1295,14 @@ def replay(ctx, case):
     kind = case.get("kind")
     if kind == "beh":
         R.run_behaviour(ctx, case, case["rows"], case["sv0"], case["root"], real=case.get("real", "user"), salt=case.get("salt", 0))
+        return
+    if kind == "rbeh":
+        from cuqiverif import mhreconf_real as M
+        M.run_rbeh(ctx, case, case["root"], case.get("facet", "reconf"), salt=case.get("salt", 0), via=case.get("via", "step"))
+        return
+    if kind == "rroot":
+        from cuqiverif import mhreconf_real as M
+        M.admission(ctx, case["root"], M.new_stats())
         return
     if kind == "chain":
         from cuqiverif import mhchain_real as C
